@@ -31,3 +31,20 @@ Print Assumptions C05_read_total.
 Theorem C05_prealloc : forall n cde_pos data, cde_pos <= len data -> prealloc_entries n cde_pos <= len data.
 Proof. exact prealloc_bound. Qed.
 Print Assumptions C05_prealloc.
+
+(* ---------- the other reader entry points: streaming reader, visitor, open-for-append.
+   For EVERY byte string: walking it with read_zipfile_from_stream until the central directory (each handle dropped,
+   whatever was consumed), the visitor's metadata phase, and ZipWriter::new_append never panic and never run out of
+   fuel (each step advances by at least 30 / 46 bytes inside the input, so the input length bounds the loops). *)
+From ZipV Require Import Model.Stream Model.Writer Proofs.StreamTotal.
+Theorem C05_stream_total : forall data, no_panic (snd (stream_entries (S (length data)) data 0)).
+Proof. intro data. apply stream_entries_np. unfold len. lia. Qed.
+Print Assumptions C05_stream_total.
+
+Theorem C05_visit_total : forall data, no_panic (snd (visit data)).
+Proof. exact visit_np. Qed.
+Print Assumptions C05_visit_total.
+
+Theorem C05_append_open_total : forall data plan, no_panic (new_append data plan).
+Proof. exact new_append_np. Qed.
+Print Assumptions C05_append_open_total.
